@@ -38,9 +38,11 @@ impl<'a> ZodSchemaBuilder<'a> {
     ) -> String {
         match ts {
             TypeStructure::Optional(inner) => {
+                // An Option below a container (array element, map value, tuple slot) stays
+                // exempt from the field's validators, which constrain the container itself
                 format!(
                     "{}.optional()",
-                    self.render_type(inner, validator, false, is_record_key)
+                    self.render_type(inner, validator, skip_validation, is_record_key)
                 )
             }
             TypeStructure::Primitive(prim) => {
